@@ -28,7 +28,7 @@ def run_plan(case):
                               leader=case.get("leader"), nfp=case.get("nfp"), ctx=case.get("ctx"), plan=plan,
                               overrides=case.get("overrides"), line_overrides=case.get("line_overrides"),
                               blank=blank, kind=case.get("kind"), sample=case.get("sample"),
-                              informational=case.get("informational"))
+                              informational=case.get("informational"), vary_first=case.get("vary_first", False))
     if case.get("vol_trailing"):
         # bytes after the last record (a file padded to a block boundary by the medium it came from): not part of any record
         b.files[b.names["vol"]] = b.files[b.names["vol"]] + {"nul": b"\0", "blank": b" ", "junk": b"REMARKS:"}[case["vol_trailing"][0]] * case["vol_trailing"][1]
